@@ -282,8 +282,9 @@ def execute(schedule, ctx):
         rejected = False
         if via:
             # (the linker's own argument checks and numerical policies are C08's business; here the frame, the reads and
-            # the refusal of a period the model cannot be solved for)
-            pass
+            # the refusal of a period the model cannot be solved for - which, being refused up front, changes nothing)
+            if single and infeasible and out['kind'] == 'raise' and not interrupted:
+                chk('reject/nothing-changes', not changed, {'changed': changed[:8], 'why': 'infeasible period refused through the wrapping linker'})
         elif opts['min_iter'] > opts['max_iter']:
             rejected = True
             ctx.probe('rejected:min_iter>max_iter')
